@@ -585,6 +585,10 @@ func c13CalcIndexRange(c *Ctx, id string) {
 				return true // "not found yet": rejected before calcIndex is reached, and by calcIndex itself
 			}
 			cl, _ := CallOfValue(v)
+			if cl != nil && IsBuiltinCall(cl, "len") {
+				// len(<typed view of curValue>): the type-switch form of the same measurement
+				return typedViewOf(cl.Call.Args[0], efs.Params[0])
+			}
 			if cl == nil || !MatchCC(&cl.Call, Spec{"reflect", "Value", "Len"}) {
 				return false
 			}
@@ -602,18 +606,7 @@ func c13CalcIndexRange(c *Ctx, id string) {
 				return // composite literal of the accepted types
 			}
 			// only indexings of the typed view of curValue
-			if !DerivesAny(ia.X, false, func(v ssa.Value) bool {
-				ta, isTA := v.(*ssa.TypeAssert)
-				if isTA {
-					return ta.X == ssa.Value(efs.Params[0])
-				}
-				if ex, isEx := v.(*ssa.Extract); isEx {
-					if ta, isTA := ex.Tuple.(*ssa.TypeAssert); isTA {
-						return ta.X == ssa.Value(efs.Params[0])
-					}
-				}
-				return false
-			}) {
+			if !typedViewOf(ia.X, efs.Params[0]) {
 				return
 			}
 			nIdx++
@@ -636,7 +629,22 @@ func c13CalcIndexRange(c *Ctx, id string) {
 			c.Note("extractFromSlice support: lenOK=%v idxOK=%v nIdx=%d", lenOK, idxOK, nIdx)
 		}
 	}
-	c.Check(ok, id, fk(efs)+":indexes-the-measured-value-with-calcIndex-result", efs.Pos(), "every v[index] uses calcIndex's result on its nil-error edge, and the length passed is reflect.ValueOf(curValue).Len() of the same value")
+	c.Check(ok, id, fk(efs)+":indexes-the-measured-value-with-calcIndex-result", efs.Pos(), "every v[index] uses calcIndex's result on its nil-error edge, and the length passed is the measured length (reflect.ValueOf(curValue).Len() or len of a typed view) of the same value")
+}
+
+// typedViewOf: v derives from a type assertion (plain or comma-ok) of the interface value src.
+func typedViewOf(v ssa.Value, src ssa.Value) bool {
+	return DerivesAny(v, false, func(v ssa.Value) bool {
+		if ta, isTA := v.(*ssa.TypeAssert); isTA {
+			return ta.X == src
+		}
+		if ex, isEx := v.(*ssa.Extract); isEx {
+			if ta, isTA := ex.Tuple.(*ssa.TypeAssert); isTA {
+				return ta.X == src
+			}
+		}
+		return false
+	})
 }
 
 func nonNegFacts(v ssa.Value, facts []Fact) bool {
